@@ -104,6 +104,8 @@ def cells(tier, seed):
                 out.append(c)
     for (T, b, n), mode in itertools.product([(3, 2, 4), (3, 3, 3), (2, 1, 3)], ["eval", "train"]):
         out.append({"what": "taskdim", "T": T, "b": b, "n": n, "mode": mode})
+    for s, mode in itertools.product(["Grid", "Variational", "Unwhitened"], ["eval", "train"]):
+        out.append({"what": "x1", "strategy": s, "mode": mode})
     for s, dist in sorted(ILLEGAL):
         out.append({"strategy": s, "dist": dist, "pat": [0, 0, 0, 0], "shape": [3, 4, 1], "q": "generic", "mode": "eval",
                     "jit": "default", "expect": "refusal"})
@@ -598,9 +600,53 @@ def run_taskdim(cell, seed):
     return {"fails": _dedupe(fails), "sig": "taskdim:" + ",".join(sorted({f["sub"] for f in fails})), "features": feats, "ops": 4, "nontrivial": True}
 
 
+def run_singleton_batch(cell, seed):
+    """inputs with a size-1 batch dimension broadcast against batched variational parameters exactly like inputs without it (differential
+    oracle: the same strategy on the un-batched inputs, whose value the lattice cells decide)"""
+    fails = Fails()
+    s = cell["strategy"]
+    feats = {"strategy": s + "-x1", "dist": "Cholesky", "mode": cell["mode"], "q": "generic", "jit": "default"}
+    g = util.gen(seed, "c14x1|" + util.jdump(cell))
+    util.own_rng(seed, "c14x1-lib|" + util.jdump(cell))
+    d, n, b = 1, 4, 3
+    if s == "Grid":
+        vd = V.CholeskyVariationalDistribution(8, batch_shape=torch.Size([b]))
+        mk = lambda m: V.GridInterpolationVariationalStrategy(m, grid_size=8, grid_bounds=[(-0.2, 1.2)], variational_distribution=vd)  # noqa: E731
+        Mq = 8
+    else:
+        cls = {"Variational": V.VariationalStrategy, "Unwhitened": V.UnwhitenedVariationalStrategy}[s]
+        vd = V.CholeskyVariationalDistribution(3, batch_shape=torch.Size([b]))
+        Z = inducing(g, (), 3, d)
+        mk = lambda m: cls(m, Z, vd, learn_inducing_locations=True)  # noqa: E731
+        Mq = 3
+    model = VModel(mk, (), d)
+    set_hypers(model, g, (), d)
+    X = util.rand(g, n, d)
+    model.train()
+    with torch.no_grad():
+        model(X)
+        vd.variational_mean.copy_(util.randn(g, b, Mq))
+        A = 0.3 * util.randn(g, b, Mq, Mq)
+        vd.chol_variational_covar.copy_(torch.tril(A) + torch.diag_embed(0.6 + util.rand(g, b, Mq)))
+    model.train(cell["mode"] == "train")
+    with torch.no_grad():
+        with fails.guard("singleton-input-batch"):
+            want = model(X)
+            wm, wc = want.mean.clone(), want.covariance_matrix.clone()
+            model.train(cell["mode"] == "train")
+            got = model(X.unsqueeze(0))
+            bcheck(fails, "singleton-input-batch", got.mean, wm, 1e-10, "q(f) at inputs 1 x n x d != q(f) at the same inputs n x d (mean)")
+            bcheck(fails, "singleton-input-batch", got.covariance_matrix, wc, 1e-10, "q(f) at inputs 1 x n x d != q(f) at n x d (covariance)")
+    for f in fails:
+        f["features"] = dict(feats, what=f["sub"])
+    return {"fails": _dedupe(fails), "sig": "x1:" + ",".join(sorted({f["sub"] for f in fails})), "features": feats, "ops": 2, "nontrivial": True}
+
+
 def run_cell(cell, seed):
     if cell.get("what") == "taskdim":
         return run_taskdim(cell, seed)
+    if cell.get("what") == "x1":
+        return run_singleton_batch(cell, seed)
     fails = Fails()
     bz, bv, bk, bx = cell["pat"]
     M, n, d = cell["shape"]
